@@ -350,6 +350,39 @@ mode, only XY in XY mode. -/
 def measBasisOk (s : SeqState) (b : Basis) : Bool :=
   if s.inXY then b == .xy else (s.dev.chans.any (·.basis == b) && b != .xy)
 
+/-- `enable_eom_mode` after its parameters have been validated: fall wait + buffer, the new
+block, the optional drift correction, and the stored call (with the chosen off-detuning). -/
+def enableEomCommit (s : SeqState) (n : ChName) (c : ChanState) (e : EomIn) (detOff : Rat) : Raw :=
+  let drift : Drift := { rate := -detOff, ti := c.getDuration true }
+  (s.withChan n fun c => enableEom s.dev.maxSeqDur c e.amp e.detOn detOff false false).bind fun s1 =>
+    let r : Raw :=
+      if e.corr then
+        match (s1.getChan n).bind (·.slots.getLast?) with
+        | some buf => s1.phaseShift (-(drift.calc buf.tf)) buf.targets c.cfg.basis
+        | none => fail s1 .noTarget
+      else done s1
+    store (.enableEom n { e with optimal := detOff }) r
+
+/-- `modify_eom_setpoint` after validation: close the running block, open the new one behind
+a buffer (no fall wait), optional drift correction, stored call. -/
+def modifyEomCommit (s : SeqState) (n : ChName) (c : ChanState) (e : EomIn) (detOff : Rat) : Raw :=
+  (s.withChan n fun c => disableEom s.dev.maxSeqDur c true).bind fun s1 =>
+    match s1.getChan n with
+    | none => fail s1 .notDeclared
+    | some c1 =>
+    let oldDrift := lastEomPulseDrift c1
+    let newDrift : Drift := { rate := -detOff, ti := c1.getDuration false }
+    (s1.withChan n fun c => enableEom s.dev.maxSeqDur c e.amp e.detOn detOff false true).bind
+      fun s2 =>
+      let r : Raw :=
+        if e.corr then
+          match (s2.getChan n).bind (·.slots.getLast?) with
+          | some buf =>
+            s2.phaseShift (-(oldDrift.calc buf.ti + newDrift.calc buf.tf)) buf.targets c.cfg.basis
+          | none => fail s2 .noTarget
+        else done s2
+      store (.modifyEom n { e with optimal := detOff }) r
+
 /-- One API call, in Python statement order. -/
 def stepRaw (s : SeqState) (op : Op) : Raw :=
   match op with
@@ -444,15 +477,7 @@ def stepRaw (s : SeqState) (op : Op) : Raw :=
     else match processEomParams c e with
     | .error er => fail s er
     | .ok detOff =>
-    let drift : Drift := { rate := -detOff, ti := c.getDuration true }
-    (s.withChan n fun c => enableEom s.dev.maxSeqDur c e.amp e.detOn detOff false false).bind fun s1 =>
-      let r : Raw :=
-        if e.corr then
-          match (s1.getChan n).bind (·.slots.getLast?) with
-          | some buf => s1.phaseShift (-(drift.calc buf.tf)) buf.targets c.cfg.basis
-          | none => fail s1 .noTarget
-        else done s1
-      store (.enableEom n { e with optimal := detOff }) r
+    enableEomCommit s n c e detOff
   | .modifyEom n e =>
     if s.measured.isSome then fail s .measured
     else match s.validateChannel n false with
@@ -462,22 +487,7 @@ def stepRaw (s : SeqState) (op : Op) : Raw :=
     else match processEomParams c e with
     | .error er => fail s er
     | .ok detOff =>
-    (s.withChan n fun c => disableEom s.dev.maxSeqDur c true).bind fun s1 =>
-      match s1.getChan n with
-      | none => fail s1 .notDeclared
-      | some c1 =>
-      let oldDrift := lastEomPulseDrift c1
-      let newDrift : Drift := { rate := -detOff, ti := c1.getDuration false }
-      (s1.withChan n fun c => enableEom s.dev.maxSeqDur c e.amp e.detOn detOff false true).bind
-        fun s2 =>
-        let r : Raw :=
-          if e.corr then
-            match (s2.getChan n).bind (·.slots.getLast?) with
-            | some buf =>
-              s2.phaseShift (-(oldDrift.calc buf.ti + newDrift.calc buf.tf)) buf.targets c.cfg.basis
-            | none => fail s2 .noTarget
-          else done s2
-        store (.modifyEom n { e with optimal := detOff }) r
+    modifyEomCommit s n c e detOff
   | .disableEom n corr =>
     store op <|
       if s.measured.isSome then fail s .measured
